@@ -93,7 +93,9 @@ class Target:
         elif kind in ("buffer_fifo", "buffer_lifo"):
             from factorysimpy.edges.buffer import Buffer
             style = rng.choice(("const", "callable", "generator"))
-            lattice = rng.choice(((0, 0.5, 1), (0, 0, 0.25, 1.5), (1,), (0,), (0.3, 0.7, 1.3), (2, 0.5)))
+            # the last two lattices are not representable with a few decimals (1/3, 2/3, sqrt(2)/2, pi/10 ...)
+            lattice = rng.choice(((0, 0.5, 1), (0, 0, 0.25, 1.5), (1,), (0,), (0.3, 0.7, 1.3), (2, 0.5),
+                                  (1 / 3, 2 / 3, 0.123456789), (0.7071067811865476, 0.3141592653589793, 1.000044)))
             self.delay_src = DelaySource(random.Random(rng.random()), style, lattice)
             mode = "FIFO" if kind.endswith("fifo") else "LIFO"
             self.edge = Buffer(env, "B", capacity=cap, delay=self.delay_src.param(), mode=mode)
@@ -486,6 +488,15 @@ def run_case(seed, kind=None, profile=None, mode=None, nops=None):
         T.fleet_oracle.finish(env.now)
     if T.conv_oracle is not None:
         T.conv_oracle.finish(env.now)
+    # C11: the value the delay source handed out is the delay that travels with the item (drawn once per put, unchanged)
+    if T.delay_src is not None and T.delay_src.style != "const" and exc is None and not sh.dead:
+        drawn = list(T.delay_src.values)
+        seen = [d for d in sh.delays_log]
+        mon.counters["c11_delay_draws_checked"] += len(seen)
+        if drawn[:len(seen)] != seen or len(drawn) - len(seen) not in (0, 1):
+            k = next((i for i in range(min(len(drawn), len(seen))) if drawn[i] != seen[i]), min(len(drawn), len(seen)))
+            mon.violation("C11", "buffer_delay_draws", "buffer:delay-source-not-consulted-once-per-put-or-other-value-travels-with-the-item",
+                          {"first_difference_at": k, "drawn": drawn[k:k + 4], "with_items": seen[k:k + 4], "lens": (len(drawn), len(seen))})
     res = summarize(mon, sh, H, env, exc)
     if T.conv_oracle is not None:
         res["nontrivial"]["C12"] = len(T.conv_oracle.items) >= 8
